@@ -293,6 +293,8 @@ func (o ivalOps) Fn(name string, args []any) any {
 		return a.Sqrt()
 	case "abs":
 		return a.Abs()
+	case "clamp":
+		return a.Min(args[2].(Ival)).Max(args[1].(Ival))
 	case "max":
 		return a.Max(args[1].(Ival))
 	case "min":
